@@ -2,6 +2,7 @@ import FuModel.Drv.Xargs
 import FuModel.Drv.XargsSys
 import FuModel.Drv.FindNum
 import FuModel.Drv.FindTime
+import FuModel.Drv.FindRun
 
 /-!
 `fudrv`: one request per line on stdin, one answer per line on stdout.
@@ -13,13 +14,15 @@ undecodable fields answer `bad-request` — the model never defaults.
 
 def handlers : List (String → List String → Option String) :=
   [FuModel.Drv.Xargs.handle, FuModel.Drv.Xargs.handleRun, FuModel.Drv.XargsSys.handle,
-   FuModel.Drv.FindNum.handle, FuModel.Drv.FindTime.handle]
+   FuModel.Drv.FindNum.handle, FuModel.Drv.FindTime.handle, FuModel.Drv.FindRun.handle]
 
 def preds : List (String × (List String → List String → Option Bool)) :=
   [("C05", FuModel.Drv.Xargs.pred), ("C04", FuModel.Drv.Xargs.predC04),
    ("C19", FuModel.Drv.Xargs.predC19), ("C20", FuModel.Drv.Xargs.predC20),
    ("C06", FuModel.Drv.XargsSys.predC06),
-   ("C14", FuModel.Drv.FindNum.predC14), ("C15", FuModel.Drv.FindTime.predC15)]
+   ("C14", FuModel.Drv.FindNum.predC14), ("C15", FuModel.Drv.FindTime.predC15),
+   ("C01", FuModel.Drv.FindRun.predFind), ("C02", FuModel.Drv.FindRun.predFindSet), ("C03", FuModel.Drv.FindRun.predFind),
+   ("C07", FuModel.Drv.FindRun.predFind), ("C18", FuModel.Drv.FindRun.predFind)]
 
 def splitAt (xs : List String) (sep : String) : List String × List String :=
   (xs.takeWhile (· != sep), (xs.dropWhile (· != sep)).drop 1)
